@@ -305,7 +305,10 @@ def spec_wild(pattern, text):
 
 
 def hex8(pte):
-    return fmt(pte, 'X', 8, '0')
+    s = fmt(pte, 'X', 8, '0')
+    if isinstance(s, str):
+        return s
+    return mkstr(_ops.expand_str(cur(), s))      # the eight digit characters
 
 
 def pattern_ok(pat):
